@@ -16,7 +16,10 @@ states in every spelling (tuples of floats / 0-dim tensors / 1-element tensors /
 generator and instrument in both dtypes, the jump models at zero intensity (0 and 0.0) and at a positive one (runs without jumps driven by a supplied
 engine also against the model, op gen); a SECOND dtype request on an instrument that already carries an explicit dtype (constructor argument or an
 earlier cast) and has been simulated in it: the existing buffers follow at once (every spelling, to(tensor), to(instrument), a cast of a derivative
-written on the instrument; a device-only call afterwards changes nothing), also replayed in the system model; INTEGER-typed initial states (Python
+written on the instrument; a device-only call afterwards changes nothing), also replayed in the system model; the dtype requested through ANOTHER
+INSTRUMENT, to(x) and to(instrument=x), x a primary (also of another class, simulated, cast) or a derivative (shipped and user-defined, fresh / simulated / cast
+after construction; its dtype is its underlier's) in float64 / float32 / float16, as a first and as a second request, before and after simulate, on every
+primary class under both global defaults (system model too); a float64 spot series holds float64 values (not float32 numbers relabelled); INTEGER-typed initial states (Python
 ints / bools, int64 / int32 / bool tensors, tuple or bare, mixed with floats) with the dtype unset (under both global defaults) and set, for every
 generator and instrument: float series of the requested / default dtype starting at that number; the functional form and the instrument with the
 SAME arguments (asymmetric, boundary-admissible and inadmissible parameter sets, random ones): simulate() succeeds iff the functional does, and
@@ -749,6 +752,14 @@ def check(ctx):
                     ctx.fail("after simulate() a buffer does not have shape (n_paths, n_steps)", case | {"stage": stage, "buffer": bn},
                              key=f"instrument:{name}:buffer-shape", detail={"shape": list(b.shape), "expected": list(shape)})
                     return False
+            if shape is not None and want == torch.float64 and "spot" in bufs and shape[1] >= 2:
+                # the values, not only the label: a series simulated in float64 is not a float32 series relabelled (continuous draws: some
+                # entry after t = 0 is not representable in float32)
+                sp_ = bufs["spot"][:, 1:]
+                if bool((sp_.to(torch.float32).to(torch.float64) == sp_).all()):
+                    ctx.fail("the spot buffer is labelled float64 but every simulated value is a float32 number: the series was not simulated in the requested dtype",
+                             case | {"stage": stage}, key=key + ":float32-values", detail={"spot[0]": [float(x) for x in bufs["spot"][0].tolist()][:4]})
+                    return False
             for prop in ("volatility", "variance"):
                 if prop in bufs or "spot" not in bufs:
                     continue
@@ -809,6 +820,57 @@ def check(ctx):
             if shape is None or not verify(stage, shape):
                 return
     DT_NAME = {"f32": "float32", "f64": "float64"}
+    # ... the dtype requested through ANOTHER INSTRUMENT, BaseInstrument.to: "instrument: Instrument whose dtype and device are the desired dtype
+    # and device of the buffers in this instrument" -- given positionally, to(x), and by keyword, to(instrument=x), where x is a primary
+    # instrument (BrownianStock, a primary of another class), a derivative (whose dtype is, by definition, the one of its underlier: European /
+    # lookback option, variance swap, a user-defined derivative with one underlier), fresh or already simulated, a derivative whose dtype was set
+    # by a cast of the derivative after it was written on an underlier of the OTHER dtype, a primary whose dtype was set by a cast.  Whatever
+    # kind of instrument x is and however it got its dtype, x.dtype is "the one requested" (the harness reads it through the public attribute
+    # and requires it to be the dtype the target was built with): every buffer, existing or simulated later, has it.  (A target without a
+    # dtype of its own is not generated: which dtype it "desires" is not stated.)
+    class OneUnderlierDerivative(I.BaseDerivative):
+        """a user-defined derivative: pays the final spot of its only underlier"""
+
+        def __init__(self, underlier, maturity=5 / 250):
+            super().__init__()
+            self.register_underlier("underlier", underlier)
+            self.maturity = maturity
+
+        def payoff_fn(self):
+            return self.ul().spot[..., -1]
+
+    def simulated(x):
+        x.simulate(n_paths=2) if isinstance(x, I.BaseDerivative) else x.simulate(n_paths=2, time_horizon=2 / 250)
+        return x
+    OTHER_SHORT = {"f64": "f32", "f32": "f64", "f16": "f64"}
+    TARGETS = [
+        ("BrownianStock(dtype={d})", lambda d: SYS.make(torch, I, "BrownianStock", d), "pk"),
+        ("HestonStock(dtype={d}), simulated", lambda d: simulated(SYS.make(torch, I, "HestonStock", d)), "pk"),
+        ("CIRRate().to({d})", lambda d: SYS.make(torch, I, "CIRRate", None).to(SYS.tdt(torch, d)), "k"),
+        ("EuropeanOption(BrownianStock(dtype={d}))", lambda d: I.EuropeanOption(SYS.make(torch, I, "BrownianStock", d)), "pk"),
+        ("LookbackOption(HestonStock(dtype={d})), simulated", lambda d: simulated(I.LookbackOption(SYS.make(torch, I, "HestonStock", d), maturity=3 / 250)), "pk"),
+        ("VarianceSwap(MertonJumpStock(dtype={d}))", lambda d: I.VarianceSwap(SYS.make(torch, I, "MertonJumpStock", d)), "k"),
+        ("EuropeanOption(BrownianStock(dtype={o})).to({d})", lambda d: I.EuropeanOption(SYS.make(torch, I, "BrownianStock", OTHER_SHORT[d])).to(SYS.tdt(torch, d)), "pk"),
+        ("EuropeanOption(KouJumpStock()) cast by double() / float() / half() to {d}",
+         lambda d: getattr(I.EuropeanOption(SYS.make(torch, I, "KouJumpStock", None)), {"f64": "double", "f32": "float", "f16": "half"}[d])(), "k"),
+        ("user-defined derivative on VasicekRate(dtype={d})", lambda d: OneUnderlierDerivative(SYS.make(torch, I, "VasicekRate", d)), "pk"),
+    ]
+
+    def instrument_request(mk, d, keyword):
+        def request(s_):
+            x = mk(d)
+            if x.dtype != SYS.tdt(torch, d):
+                raise InternalError(f"harness: the target instrument was built in {d}, its dtype is {x.dtype}")
+            s_.to(instrument=x) if keyword else s_.to(x)
+        return request
+    INSTR_REQUESTS = []
+    for d in ("f64", "f32", "f16"):
+        for ti, (text, mk, forms) in enumerate(TARGETS):
+            if d == "f16" and ti not in (0, 3):
+                continue
+            text = text.format(d=DT_NAME.get(d, SYS.DT[d]), o=SYS.DT[OTHER_SHORT[d]])
+            for f_ in forms:
+                INSTR_REQUESTS.append((("to(instrument=" if f_ == "k" else "to(") + text + ")", d, instrument_request(mk, d, f_ == "k"), ["ext", d]))
     try:
         for amb in ("f32", "f64"):
             torch.set_default_dtype(SYS.tdt(torch, amb))
@@ -816,6 +878,9 @@ def check(ctx):
                 for how, want_short, request in REQUESTS:
                     for order in ("before simulate", "after simulate"):
                         dtype_session(name, amb, how, want_short, request, order)
+                for how, want_short, request, target in INSTR_REQUESTS:
+                    for order in ("before simulate", "after simulate"):
+                        dtype_session(name, amb, how, want_short, request, order, target=target)
                 for how, want_short in CTORS:
                     dtype_session(name, amb, how, want_short, None, "before simulate")
         # ... and on an instrument that ALREADY carries an explicit dtype (constructor argument or an earlier cast) and has been simulated in
@@ -834,7 +899,7 @@ def check(ctx):
             ("to(instrument of dtype float64)", "f64", lambda s_: s_.to(I.BrownianStock(dtype=torch.float64)), ["ext", "f64"]),
             ("to(instrument of dtype float32)", "f32", lambda s_: s_.to(I.BrownianStock(dtype=torch.float32)), ["ext", "f32"]),
             ("EuropeanOption(instrument).to(torch.float64)", "f64", lambda s_: I.EuropeanOption(s_).to(torch.float64), None),
-            ("EuropeanOption(instrument).float()", "f32", lambda s_: I.EuropeanOption(s_).float(), None)]
+            ("EuropeanOption(instrument).float()", "f32", lambda s_: I.EuropeanOption(s_).float(), None)] + INSTR_REQUESTS
         for ai, amb in enumerate(("f32", "f64")):
             torch.set_default_dtype(SYS.tdt(torch, amb))
             for pi, name in enumerate(prims):
@@ -1102,7 +1167,8 @@ def check(ctx):
              "float32/float64; random-number engines (antithetic: shape, dtype, closure under negation; Sobol/Box-Muller: equals the Box-Muller "
              "transform of the Sobol points) and generators / instruments driven by them; named-tuple volatility/variance; eight primary instruments with repeated simulate() under changing path counts / horizons (multiples of dt and "
              "fractional numbers of steps on several time grids, directly and through a derivative's maturity) / initial states; 13 spellings of a dtype request "
-             "+ 3 constructor forms x 8 classes x global default float32 / float64 x before / after simulate (also replayed in the system model); a second request (19 spellings) "
+             "+ 3 constructor forms x 8 classes x global default float32 / float64 x before / after simulate (also replayed in the system model); 33 spellings of a request "
+             "through another instrument (to(x) / to(instrument=x), x primary or derivative) likewise; a second request (19 + 33 spellings) "
              "on an instrument with an explicit dtype (2 constructor forms, 4-6 earlier casts) x 8 classes x both global defaults, after (always) / before (a third) the first "
              "simulate, device-only calls in between (system model too); non-default initial states in 7-9 spellings x 2 dtypes x 9 generators and 8 instruments, jump models at "
              "intensity 0 / 0.0 / 5; integer-typed initial states in 7-9 spellings x dtype unset / float32 / float64 x 9 generators and 8 instruments; instrument vs "
